@@ -49,6 +49,7 @@ from r2c_trans import Translator, Sig, parse_type_src, strip
 
 R = os.environ.get("VERIF_R2C_REPO") or common.REPO   # the override is for the translator's own self-tests
 MSG = R + "/node/libs/roles/src/validator/messages"
+REPLICA = ["replica_core", "replica_commit", "replica_timeout", "replica_new_view", "replica_proposal"]
 
 # ---------------------------------------------------------------------------
 # Trusted tables: how Rust types map to the types of the hand-written models.
@@ -82,6 +83,8 @@ TYPES = {
                               "variants": {"Commit": ("JCommit", ["CommitQC"]), "Timeout": ("JTimeout", ["TimeoutQC"])}},
     "Signers": {"kind": "newtype", "inner": "BitVec", "src": MSG + "/v2/consensus.rs"},      # a list of bools
     "Claims": {"kind": "opaque", "coq": "unit"},
+    "ProposalJustificationVerifyError": {"kind": "enum", "coq": "just_err", "src": MSG + "/v2/leader_proposal.rs",
+                                         "variants": {"Commit": ("JECommit", ["CommitQCVerifyError"]), "Timeout": ("JETimeout", ["TimeoutQCVerifyError"])}},
     # Signed<V> { msg, key, sig } -> Model/Msgs.v signed (claimed key, message, attached signature = (signer, what was signed))
     "Signed_ReplicaCommit": {"kind": "record", "coq": "(signed commit sigref)",
                              "fields": {"msg": ("smsg", "ReplicaCommit"), "key": ("skey", "validator::PublicKey"), "sig": ("ssig", "Signature")}},
@@ -147,13 +150,34 @@ EXTERNS = {
     ("Signed_ReplicaTimeout", "verify"): dict(targets=["qc_verify"], params=[], ret="anyhow::Result<()>", eff=False,
                                               template="(if ksig_eqb tsigref_eqb (ssig {0}) (skey {0}, TTimeout (smsg {0})) then Ok tt else Err tt)",
                                               why="H-SIG, as above"),
+    ("Config", "genesis_hash"): dict(targets=REPLICA, template="(cg {0})", params=[], ret="GenesisHash", eff=False, why="field of the model's config"),
+    ("Schedule", "contains"): dict(targets=REPLICA, template="(match cindex {0} {1} with Some _ => true | None => false end)",
+                                   params=["validator::PublicKey"], ret="bool", eff=False, why="Model/Replica.v ccontains"),
+    ("Schedule", "view_leader"): dict(targets=REPLICA, template="(cleader v_cfg {1})", params=["ViewNumber"], ret="validator::PublicKey", eff=False,
+                                      why="Model/Replica.v cleader (round robin; the election itself is C11 / Gen/Leader.v)"),
+    ("StateMachine", "backup_state"): dict(targets=REPLICA, template="(backup_state v_cfg {0})", params=["ctx::Ctx"], ret="ctx::Result<()>", eff="h",
+                                           why="Model/Replica.v backup_state: EPersist of the durable part of the state (block.rs backup_state is not translated)"),
+    ("EngineManager", "queue_block"): dict(targets=REPLICA, template="(engine_queue_block s {1})", params=["ctx::Ctx", "FinalBlock"], ret="ctx::Result<()>",
+                                           eff="h", why="Model/ReplicaGlue.v (H-ENG)"),
+    ("EngineManager", "wait_until_persisted"): dict(targets=REPLICA, template="(engine_wait_persisted s {1})", params=["ctx::Ctx", "validator::BlockNumber"],
+                                                    ret="ctx::Result<()>", eff="h", why="Model/ReplicaGlue.v (H-ENG): queued blocks are persisted at once"),
+    ("FinalBlock", "header"): dict(targets=REPLICA, template="(cprop (qmsg (snd {0})))", params=[], ret="BlockHeader", eff=False, why="header of the justification"),
+    ("PayloadMap", "get"): dict(targets=REPLICA, template="(payload_map_get {0} {1})", params=["PayloadHash"], ret="Option<Payload>", eff=False,
+                                why="Model/ReplicaGlue.v: payloads are identified by their hash"),
+    ("Outbound", "send"): dict(targets=REPLICA, template="(send_outbound s {1})", params=["ConsensusInputMessage"], ret="()", eff="h",
+                               why="Model/ReplicaGlue.v: ESend effect"),
+    ("ProposerSender", "send"): dict(targets=REPLICA, template="(notify_proposer s {1})", params=["Option<ProposalJustification>"],
+                                     ret="Result<(), SendError>", eff="h", why="Model/ReplicaGlue.v: ENotifyProposer effect"),
+    ("SecretKey", "sign_msg"): dict(targets=REPLICA, template="{1}", params=["ConsensusMsg"], ret="ConsensusMsg", eff=False,
+                                    why="H-SIG: signing is symbolic, the model's ESend carries the message itself"),
+    ("Ctx", "now"): dict(targets=REPLICA, template="tt", params=[], ret="Instant", eff=False, why="time is not part of the model"),
     ("Schedule", "iter"): dict(targets=["qc_verify"], template="{0}", params=[], ret="Vec<ValidatorInfo>", eff=False,
                                why="the committee of Model/Msgs.v is the list of the schedule's validators in key order"),
     ("Schedule", "len"): dict(targets=["qc_verify"], template="(Z.of_nat (length {0}))", params=[], ret="usize", eff=False,
                               why="the committee of Model/Msgs.v is the list of the schedule's validators"),
-    ("Schedule", "quorum_threshold"): dict(targets=["qc_verify"], template="(quorum {0})", params=[], ret="u64", eff=False,
+    ("Schedule", "quorum_threshold"): dict(targets=["qc_verify"] + REPLICA, template="(quorum {0})", params=[], ret="u64", eff=False,
                                            why="Model/Msgs.v quorum = total - (total - 1) / 5; arithmetic is C07"),
-    ("Signers", "weight"): dict(targets=["justification", "qc_verify"], template="signers_weight {1} {0}", params=["Schedule"], ret="u64", eff=True,
+    ("Signers", "weight"): dict(targets=["justification", "qc_verify"] + REPLICA, template="signers_weight {1} {0}", params=["Schedule"], ret="u64", eff=True,
                                 why="Model/Msgs.v signers_weight (asserts equal lengths, sums the weights); not trusted: the translated body of "
                                     "Signers::weight equals it, theorem C04_generated_signers_weight (positive weights, total < 2^64)"),
     ("Signers", "count"): dict(targets=["justification"], template="(Z.of_nat (length (filter (fun b : bool => b) {0})))", params=[], ret="usize", eff=False,
@@ -198,7 +222,7 @@ def _types(target=None):
     out = {}
     merged = dict(TYPES)
     if target:
-        for d in TARGETS[target]["deps"] + [target]:
+        for d in order_of(target):
             merged.update(TARGETS[d].get("types", {}))
     for n, s in merged.items():
         s = dict(s)
@@ -264,6 +288,102 @@ HDR = R + "/node/components/network/src/mux/header.rs"
 LIM = R + "/node/libs/concurrency/src/limiter/mod.rs"
 SCHED = MSG + "/schedule.rs"
 STDCONV = R + "/node/libs/protobuf/src/std_conv.rs"
+BFT = R + "/node/components/bft/src"
+CHONKY = BFT + "/v2_chonky_bft"
+
+# Types of the replica state machine -> Model/Replica.v.  Fields without a counterpart in the model map to None
+# (timers, the inbound channel); channel endpoints, the engine and the secret key are unit values whose methods are
+# callee-table entries (effects of the model).  A third component is the type the MODEL keeps for the field.
+def handler_types(err_variants, msg_types):
+    t = dict(REPLICA_TYPES)
+    t["Error"] = {"kind": "enum", "coq": "rerr", "variants": err_variants}
+    t.update(msg_types)
+    return t
+
+
+ERR_COMMON = {"NonValidatorSigner": ("RNonValidatorSigner", {"signer": "Box<validator::PublicKey>"}, "drop"),
+              "InvalidSignature": ("RInvalidSignature", ["anyhow::Error"], "drop"),
+              "Internal": ("{0}", ["ctx::Error"])}
+# an incoming signed message is (claimed key, signature verdict, message): Model/Replica.v sgmsg
+def signed(coq_msg, rust_msg):
+    return {"kind": "record", "coq": f"(Z * bool * {coq_msg})",
+            "fields": {"msg": ("snd", rust_msg), "key": ("fst (fst {0})", "validator::PublicKey"), "sig": (None, "validator::Signature")}}
+
+
+def signed_verify(ty):
+    return {(ty, "verify"): dict(template="(if snd (fst {0}) then Ok tt else Err tt)", params=[], ret="anyhow::Result<()>", eff=False,
+                                 why="H-SIG: the signature verdict is an input of the model (sgmsg.m_sig_ok)")}
+
+
+REPLICA_TYPES = {
+    "StateMachine": {"kind": "record", "coq": "rstate", "src": CHONKY + "/mod.rs",
+                     "fields": {
+                         "config": ("=v_cfg", "Arc<Config>"),
+                         "outbound_channel": ("=tt", "ctx::channel::UnboundedSender<ToNetworkMessage>", "Outbound"),
+                         "inbound_channel": (None, "sync::prunable_mpsc::Receiver<FromNetworkMessage>"),
+                         "proposer_sender": ("=tt", "sync::watch::Sender<Option<validator::v2::ProposalJustification>>", "ProposerSender"),
+                         "view_number": ("r_view", "validator::ViewNumber"),
+                         "phase": ("r_phase", "validator::v2::Phase"),
+                         "high_vote": ("r_high_vote", "Option<validator::v2::ReplicaCommit>"),
+                         "high_commit_qc": ("r_high_cqc", "Option<validator::v2::CommitQC>"),
+                         "high_timeout_qc": ("r_high_tqc", "Option<validator::v2::TimeoutQC>"),
+                         "block_proposal_cache": ("r_cache", "BTreeMap<validator::BlockNumber, HashMap<validator::PayloadHash, validator::Payload>>",
+                                                  "BTreeMap<validator::BlockNumber, PayloadMap>"),
+                         "commit_views_cache": ("r_commit_views", "BTreeMap<validator::PublicKey, validator::ViewNumber>"),
+                         "commit_qcs_cache": ("r_commit_qcs", "BTreeMap<validator::ViewNumber, BTreeMap<validator::v2::ReplicaCommit, validator::v2::CommitQC>>"),
+                         "timeout_views_cache": ("r_timeout_views", "BTreeMap<validator::PublicKey, validator::ViewNumber>"),
+                         "timeout_qcs_cache": ("r_timeout_qcs", "BTreeMap<validator::ViewNumber, validator::v2::TimeoutQC>"),
+                         "view_timeout": (None, "time::Deadline"),
+                         "view_start": (None, "time::Instant")},
+                     "setters": {"view_number": "set_view {s} {v}", "phase": "set_phase {s} {v}", "high_vote": "set_high_vote {s} {v}",
+                                 "high_commit_qc": "set_high_cqc {s} {v}", "high_timeout_qc": "set_high_tqc {s} {v}",
+                                 "block_proposal_cache": "set_cache {s} {v}",
+                                 "commit_views_cache": "set_commit_caches {s} {v} (r_commit_qcs {s})",
+                                 "commit_qcs_cache": "set_commit_caches {s} (r_commit_views {s}) {v}",
+                                 "timeout_views_cache": "set_timeout_caches {s} {v} (r_timeout_qcs {s})",
+                                 "timeout_qcs_cache": "set_timeout_caches {s} (r_timeout_views {s}) {v}"},
+                     "ignored_assign": ["view_timeout", "view_start"]},
+    "Config": {"kind": "record", "coq": "config", "src": BFT + "/config.rs",
+               "fields": {"engine_manager": ("=tt", "Arc<EngineManager>", "EngineManager"),
+                          "secret_key": ("=tt", "validator::SecretKey", "SecretKey"),
+                          "max_payload_size": ("cmaxpay", "usize"),
+                          "view_timeout": (None, "time::Duration"),
+                          "epoch": ("ce", "validator::EpochNumber"),
+                          "first_block": ("cfirst", "validator::BlockNumber"),
+                          "validators": ("cC", "validator::Schedule")}},
+    "Phase": {"kind": "enum", "coq": "phase", "eqb": "phase_eqb", "src": MSG + "/v2/consensus.rs",
+              "variants": {"Prepare": ("Prepare", []), "Commit": ("PCommit", []), "Timeout": ("PTimeout", [])}},
+    "Ctx": {"kind": "dropped", "coq": "unit"},
+    "EngineManager": {"kind": "opaque", "coq": "unit"},
+    "SecretKey": {"kind": "opaque", "coq": "unit"},
+    "Outbound": {"kind": "opaque", "coq": "unit"},
+    "ProposerSender": {"kind": "opaque", "coq": "unit"},
+    "Instant": {"kind": "opaque", "coq": "unit"},
+    "Payload": {"kind": "opaque", "coq": "Z", "eqb": "Z.eqb"},        # a payload is identified by its hash (Model/Replica.v)
+    "PayloadMap": {"kind": "opaque", "coq": "(list Z)"},
+    "PublicKey": {"kind": "opaque", "coq": "Z", "eqb": "Z.eqb"},
+    "CtxError": {"kind": "opaque", "coq": "rerr"},
+    # FinalBlock { payload, justification }
+    "FinalBlock": {"kind": "record", "coq": "(Z * cqc)", "mk": "{payload}, {justification}", "into": True,
+                   "fields": {"payload": ("fst", "Payload"), "justification": ("snd", "CommitQC")}},
+    "View": dict(TYPES["View"], ge="view_ge"),
+    # outbound messages: signing is symbolic (the model's ESend carries the message)
+    "ConsensusInputMessage": {"kind": "record", "coq": "cmsg", "mk": "{message}", "fields": {"message": ("id", "validator::Signed<validator::ConsensusMsg>", "ConsensusMsg")}},
+    "ConsensusMsg": {"kind": "enum", "coq": "cmsg", "variants": {"V2": ("{0}", ["ChonkyMsg"])}},
+    "ChonkyMsg": {"kind": "enum", "coq": "cmsg",
+                  "variants": {"ReplicaNewView": ("MNewView {0}", ["ReplicaNewView"]), "ReplicaCommit": ("MCommit {0}", ["ReplicaCommit"]),
+                               "ReplicaTimeout": ("MTimeout {0}", ["ReplicaTimeout"]), "LeaderProposal": ("{0}", ["LeaderProposal"])}},
+    # a ReplicaNewView is its justification; a LeaderProposal is (payload id or None, justification)  (Model/Replica.v cmsg)
+    "ReplicaNewView": {"kind": "record", "coq": "justification", "mk": "{justification}", "src": MSG + "/v2/replica_new_view.rs",
+                       "fields": {"justification": ("id", "ProposalJustification")}},
+    "LeaderProposal": {"kind": "record", "coq": "(option Z * justification)", "mk": "{proposal_payload}, {justification}",
+                       "src": MSG + "/v2/leader_proposal.rs",
+                       "fields": {"proposal_payload": ("fst", "Option<Payload>"), "justification": ("snd", "ProposalJustification")}},
+    "ReplicaNewViewVerifyError": {"kind": "enum", "coq": "just_err", "src": MSG + "/v2/replica_new_view.rs",
+                                  "variants": {"Justification": ("{0}", ["ProposalJustificationVerifyError"])}},
+    "LeaderProposalVerifyError": {"kind": "enum", "coq": "just_err", "src": MSG + "/v2/leader_proposal.rs",
+                                  "variants": {"Justification": ("{0}", ["ProposalJustificationVerifyError"])}},
+}
 
 TARGETS = {
     "numbers": {
@@ -405,6 +525,7 @@ TARGETS = {
                        {"rust": "self.signature.verify_messages(messages_and_keys)", "type": "anyhow::Result<()>",
                         "coq": "(if mset_eqb (ksig_eqb tsigref_eqb) (tqagg v_self) (tqc_claimed v_validators_schedule (tqmap v_self)) "
                                "then Ok tt else Err tt)"}]},
+            {"kind": "fn", "src": MSG + "/v2/leader_proposal.rs", "type": "ProposalJustification", "name": "verify"},
             # add(): the accept / reject decision (with the error) is translated; the state updates that follow an accepted
             # message are pinned as the exact last statements of the body
             {"kind": "decision", "src": MSG + "/v2/replica_commit.rs", "type": "CommitQC", "name": "add", "as": "add_decision",
@@ -434,6 +555,138 @@ TARGETS = {
             {"kind": "fn", "src": STDCONV, "type": "Utc", "name": "ProtoFmt::read", "as": "read", "err": "Z",
              "anyhow": {"<required>": "0", "seconds": "E_MISSING_1", "nanos": "E_MISSING_2"}},
             {"kind": "fn", "src": STDCONV, "type": "Utc", "name": "ProtoFmt::build", "as": "build"},
+        ],
+    },
+    "replica_core": {
+        "out": "theories/Gen/ReplicaCore.v",
+        "requires": "Lib.Outcome Lib.U64 Lib.RustSem Lib.ListW Lib.Obs Model.Msgs Model.Replica Model.ReplicaGlue Gen.Numbers Gen.Justification Gen.QCVerify",
+        "deps": ["numbers", "justification", "qc_verify"],
+        "types": REPLICA_TYPES,
+        "items": [
+            {"kind": "fn", "src": MSG + "/v2/replica_new_view.rs", "type": "ReplicaNewView", "name": "view"},
+            {"kind": "fn", "src": MSG + "/v2/replica_new_view.rs", "type": "ReplicaNewView", "name": "verify"},
+            {"kind": "fn", "src": MSG + "/v2/leader_proposal.rs", "type": "LeaderProposal", "name": "view"},
+            {"kind": "fn", "src": MSG + "/v2/leader_proposal.rs", "type": "LeaderProposal", "name": "verify"},
+            {"kind": "state_fn", "src": CHONKY + "/block.rs", "type": "StateMachine", "name": "save_block"},
+            {"kind": "state_fn", "src": CHONKY + "/mod.rs", "type": "StateMachine", "name": "process_commit_qc"},
+            {"kind": "state_fn", "src": CHONKY + "/mod.rs", "type": "StateMachine", "name": "process_timeout_qc"},
+            {"kind": "fn", "src": CHONKY + "/new_view.rs", "type": "StateMachine", "name": "get_justification", "extra_params": [("cfg", "Config")]},
+            {"kind": "state_fn", "src": CHONKY + "/new_view.rs", "type": "StateMachine", "name": "start_new_view"},
+            {"kind": "state_fn", "src": CHONKY + "/timeout.rs", "type": "StateMachine", "name": "start_timeout"},
+        ],
+    },
+    "replica_commit": {
+        "out": "theories/Gen/ReplicaCommit.v",
+        "requires": "Lib.Outcome Lib.U64 Lib.RustSem Lib.ListW Lib.Obs Model.Msgs Model.Replica Model.ReplicaGlue "
+                    "Gen.Numbers Gen.Justification Gen.QCVerify Gen.ReplicaCore",
+        "deps": ["qc_verify", "replica_core"],
+        "types": handler_types(dict(ERR_COMMON,
+                                    Old=("ROld", {"current_view": "validator::ViewNumber"}, "drop"),
+                                    DuplicateSigner=("RDuplicateSigner", {"message_view": "validator::ViewNumber", "signer": "Box<validator::PublicKey>"}, "drop"),
+                                    InvalidMessage=("RInvalidMessage (OZ (view_err_code {0}))", ["validator::v2::ReplicaCommitVerifyError"])),
+                               {"Signed_ReplicaCommit": signed("commit", "validator::v2::ReplicaCommit")}),
+        "externs": signed_verify("Signed_ReplicaCommit"),
+        "items": [
+            {"kind": "guard", "src": CHONKY + "/commit.rs", "type": "StateMachine", "name": "on_commit", "as": "on_commit_guard",
+             "to": {"let_mentions": "entry"}},
+            {"kind": "pin", "src": CHONKY + "/commit.rs", "type": "StateMachine", "name": "on_commit", "what": "add the vote to the CommitQC under construction, compute its weight",
+             "from": {"let_mentions": "entry"}, "to": {"call": "insert"}, "sha": "9666448c64a29d48"},
+            {"kind": "state_part", "src": CHONKY + "/commit.rs", "type": "StateMachine", "name": "on_commit", "as": "on_commit_tail",
+             "from": {"call": "insert"}, "to": {"end": True},
+             "locals": [("message", "validator::v2::ReplicaCommit"), ("author", "validator::PublicKey"), ("weight", "u64")]},
+        ],
+    },
+    "replica_timeout": {
+        "out": "theories/Gen/ReplicaTimeout.v",
+        "requires": "Lib.Outcome Lib.U64 Lib.RustSem Lib.ListW Lib.Obs Model.Msgs Model.Replica Model.ReplicaGlue "
+                    "Gen.Numbers Gen.Justification Gen.QCVerify Gen.ReplicaCore",
+        "deps": ["qc_verify", "replica_core"],
+        "types": handler_types(dict(ERR_COMMON,
+                                    Old=("ROld", {"current_view": "validator::ViewNumber"}, "drop"),
+                                    DuplicateSigner=("RDuplicateSigner", {"message_view": "validator::ViewNumber", "signer": "Box<validator::PublicKey>"}, "drop"),
+                                    InvalidMessage=("RInvalidMessage (timeout_verify_err_obs {0})", ["validator::v2::ReplicaTimeoutVerifyError"])),
+                               {"Signed_ReplicaTimeout": signed("timeout", "validator::v2::ReplicaTimeout")}),
+        "externs": {**signed_verify("Signed_ReplicaTimeout"),
+                    ("TimeoutQC", "weight"): dict(template="tqc_weight {1} {0}", params=["Schedule"], ret="u64", eff=True,
+                                                  why="Model/Msgs.v tqc_weight (sum of the entries' signer weights)")},
+        "items": [
+            {"kind": "guard", "src": CHONKY + "/timeout.rs", "type": "StateMachine", "name": "on_timeout", "as": "on_timeout_guard",
+             "to": {"let_mentions": "entry"}},
+            {"kind": "pin", "src": CHONKY + "/timeout.rs", "type": "StateMachine", "name": "on_timeout",
+             "what": "add the vote to the TimeoutQC under construction, compute its weight",
+             "from": {"let_mentions": "entry"}, "to": {"call": "insert"}, "sha": "90bb0441592fbfad"},
+            {"kind": "state_part", "src": CHONKY + "/timeout.rs", "type": "StateMachine", "name": "on_timeout", "as": "on_timeout_tail",
+             "from": {"call": "insert"}, "to": {"end": True},
+             "locals": [("message", "validator::v2::ReplicaTimeout"), ("author", "validator::PublicKey"), ("weight", "u64")]},
+        ],
+    },
+    "replica_new_view": {
+        "out": "theories/Gen/ReplicaNewView.v",
+        "requires": "Lib.Outcome Lib.U64 Lib.RustSem Lib.ListW Lib.Obs Model.Msgs Model.Replica Model.ReplicaGlue "
+                    "Gen.Numbers Gen.Justification Gen.QCVerify Gen.ReplicaCore",
+        "deps": ["qc_verify", "replica_core"],
+        "types": handler_types(dict(ERR_COMMON,
+                                    Old=("ROld", {"current_view": "validator::ViewNumber"}, "drop"),
+                                    InvalidMessage=("RInvalidMessage (just_err_obs {0})", ["validator::v2::ReplicaNewViewVerifyError"])),
+                               {"Signed_ReplicaNewView": signed("justification", "validator::v2::ReplicaNewView")}),
+        "externs": signed_verify("Signed_ReplicaNewView"),
+        "items": [
+            {"kind": "guard", "src": CHONKY + "/new_view.rs", "type": "StateMachine", "name": "on_new_view", "as": "on_new_view_guard",
+             "to": {"kind": "match"}},
+            {"kind": "state_part", "src": CHONKY + "/new_view.rs", "type": "StateMachine", "name": "on_new_view", "as": "on_new_view_tail",
+             "from": {"kind": "match"}, "to": {"end": True}, "locals": [("message", "validator::v2::ReplicaNewView")]},
+        ],
+    },
+    "replica_proposal": {
+        "out": "theories/Gen/ReplicaProposal.v",
+        "requires": "Lib.Outcome Lib.U64 Lib.RustSem Lib.ListW Lib.Obs Model.Msgs Model.Replica Model.ReplicaGlue "
+                    "Gen.Numbers Gen.Justification Gen.QCVerify Gen.ReplicaCore",
+        "deps": ["qc_verify", "replica_core"],
+        "types": handler_types(dict(ERR_COMMON,
+                                    Old=("ROld", {"current_view": "validator::ViewNumber", "current_phase": "validator::v2::Phase"}, "drop"),
+                                    InvalidLeader=("RInvalidLeader", {"correct_leader": "validator::PublicKey", "received_leader": "validator::PublicKey"}, "drop"),
+                                    InvalidMessage=("RInvalidMessage (just_err_obs {0})", ["validator::v2::LeaderProposalVerifyError"]),
+                                    ProposalAlreadyPruned=("RProposalAlreadyPruned", []), ReproposalWithPayload=("RReproposalWithPayload", []),
+                                    MissingPayload=("RMissingPayload", []),
+                                    ProposalOversizedPayload=("ROversizedPayload", {"payload_size": "usize"}, "drop"),
+                                    MissingPreviousPayload=("RMissingPreviousPayload", {"prev_number": "validator::BlockNumber"}, "drop"),
+                                    InvalidPayload=("RInvalidPayload", ["anyhow::Error"], "drop")),
+                               {"Signed_LeaderProposal": signed("(option Z * justification)", "validator::v2::LeaderProposal")}),
+        "externs": signed_verify("Signed_LeaderProposal"),
+        "items": [
+            {"kind": "guard", "src": CHONKY + "/proposal.rs", "type": "StateMachine", "name": "on_proposal", "as": "on_proposal_guard",
+             "to": {"let_kind": "match"},
+             "returns": {"expr": "(implied_block_number, implied_block_hash)", "type": "(validator::BlockNumber, Option<validator::PayloadHash>)"},
+             "binds": [{"rust": "self.config.engine_manager.queued().first", "coq": "(r_store_first v_self)", "type": "validator::BlockNumber"}]},
+            {"kind": "pin", "src": CHONKY + "/proposal.rs", "type": "StateMachine", "name": "on_proposal",
+             "what": "payload checks of a proposal (reproposal without payload, size, previous block persisted, verify_payload) and caching of the payload",
+             "from": {"let_kind": "match"}, "to": {"let_struct": "ReplicaCommit"}, "sha": "5890c90419e9cf19"},
+            {"kind": "state_part", "src": CHONKY + "/proposal.rs", "type": "StateMachine", "name": "on_proposal", "as": "on_proposal_tail",
+             "from": {"let_struct": "ReplicaCommit"}, "to": {"end": True},
+             "locals": [("message", "validator::v2::LeaderProposal"), ("implied_block_number", "validator::BlockNumber"),
+                        ("block_hash", "validator::PayloadHash")]},
+        ],
+    },
+    "proposer": {
+        "out": "theories/Gen/Proposer.v",
+        "requires": "Lib.Outcome Lib.U64 Lib.RustSem Lib.ListW Lib.Obs Model.Msgs Model.Replica Model.ReplicaGlue Model.RunLoop "
+                    "Gen.Numbers Gen.Justification",
+        "deps": ["numbers", "justification"],
+        "types": REPLICA_TYPES,
+        # the engine as the proposer sees it: the previous block is persisted iff it is below the store's next number
+        # (otherwise the task waits: RBlocked); propose_payload is the harness engine's payload (Model/RunLoop.v)
+        "externs": {
+            ("EngineManager", "wait_until_persisted"): dict(template="(if {1} <? v_next then Ok tt else Err RBlocked)", params=["ctx::Ctx", "validator::BlockNumber"],
+                                                            ret="ctx::Result<()>", eff=False, why="Model/RunLoop.v: PWait while block n-1 is not stored"),
+            ("EngineManager", "propose_payload"): dict(template="(Ok (proposed_payload {1}))", params=["ctx::Ctx", "validator::BlockNumber"],
+                                                       ret="ctx::Result<Payload>", eff=False, why="Model/RunLoop.v proposed_payload (the harness engine)"),
+        },
+        "items": [
+            {"kind": "fn", "src": CHONKY + "/proposer.rs", "type": "", "name": "create_proposal", "err": "rerr",
+             "extra_params": [("next", "validator::BlockNumber")],
+             "binds": [{"rust": "payload.0.len()", "coq": "(cpsize v_cfg v_payload)", "type": "usize"},
+                       {"rust": 'anyhow::format_err!("proposed payload too large: got {}B, max {}B", payload.0.len(), cfg.max_payload_size).into()',
+                        "coq": "RInternal", "type": "ctx::Error"}]},
         ],
     },
     "limiter": {
@@ -476,8 +729,51 @@ def subst_self(t, self_type):
     return t
 
 
+def find_marker(stmts, m, what):
+    """index of a top-level statement: {"let": name[, "nth": k]} | {"kind": expr kind[, "nth": k]} | {"end": True} | None (= 0)"""
+    if m is None:
+        return 0
+    if m.get("end"):
+        return len(stmts)
+    hits = []
+    for i, st in enumerate(stmts):
+        if "let" in m and st[0] == "let" and st[1] == ("pbind", m["let"]):
+            hits.append(i)
+        if "kind" in m and st[0] == "expr" and st[1][0] == m["kind"]:
+            hits.append(i)
+        if "let_mentions" in m and st[0] == "let" and _mentions(st[3], m["let_mentions"]):
+            hits.append(i)
+        if "let_struct" in m and st[0] == "let" and st[3][0] == "struct" and st[3][1][-1] == m["let_struct"]:
+            hits.append(i)
+        if "let_kind" in m and st[0] == "let" and st[3][0] == m["let_kind"]:
+            hits.append(i)
+        if "assign" in m and st[0] == "expr" and st[1][0] == "assign" and st[1][2] == parse_expr_src(m["assign"], what):
+            hits.append(i)
+        if "call" in m and st[0] == "expr" and _mentions(st[1], m["call"]):
+            hits.append(i)
+    k = m.get("nth", 0)
+    if len(hits) <= k:
+        raise ParseError(f"{what}: statement marker {m} not found: the shape of the body changed")
+    return hits[k]
+
+
+def _mentions(e, name):
+    if isinstance(e, tuple) and len(e) >= 3 and e[0] == "mcall" and e[2] == name:
+        return True
+    if isinstance(e, (tuple, list)):
+        return any(_mentions(x, name) for x in e)
+    return False
+
+
+def ast_sha(x):
+    import hashlib
+    return hashlib.sha256(repr(x).encode()).hexdigest()[:16]
+
+
 def coq_name(item):
     n = item.get("as") or item["name"]
+    if item["kind"] == "pin":
+        return f"pin_{item['type']}_{item['name']}_{item['sha']}"
     return f"gen_{item['type']}_{n}" if item["type"] else f"gen_{n}"
 
 
@@ -500,19 +796,33 @@ def _sanitize(s):
     return re.sub(r"(?i)(adm)(it)|(axi)(om)|(param)(eter)|(conj)(ecture)", lambda m: "_".join(g for g in m.groups() if g), s)
 
 
+def order_of(target):
+    order = []
+
+    def collect(t):
+        for d in TARGETS[t]["deps"]:
+            collect(d)
+        if t not in order:
+            order.append(t)
+    collect(target)
+    return order
+
+
 def translate(target, _done=None):
     """-> (Gallina text, summary, translator state). Raises ParseError when the source left the subset."""
     spec = TARGETS[target]
     types = _types(target)
     externs = {}
-    for key, x in EXTERNS.items():
-        if target not in x["targets"] and not any(d in x["targets"] for d in spec["deps"]):
+    for key, x in list(EXTERNS.items()) + [(k2, x2) for t2 in order_of(target) for k2, x2 in TARGETS[t2].get("externs", {}).items()]:
+        x = dict(x)
+        x.setdefault("targets", [target])
+        if not any(d in x["targets"] for d in order_of(target)):
             continue
         externs[key] = Sig(None, [parse_type_src(p) for p in x["params"]], x.get("self", True), parse_type_src(x["ret"]), x["eff"], x["template"])
     tr = Translator(types, externs)
     tr.verify = verify_type
     for (ty, op), x in OPS.items():
-        if target in x["targets"] or any(d in x["targets"] for d in spec["deps"]):
+        if any(d in x["targets"] for d in order_of(target)):
             tr.ops[(ty, op)] = (x["template"], x["eff"], parse_type_src(x["ret"]) if x.get("ret") else None)
     for (ty, name), x in CONSTS.items():
         if target in x["targets"]:
@@ -572,6 +882,39 @@ def translate(target, _done=None):
                     tr.fns[key] = Sig(cn, [t for _, t in params], bool(self_mode), ret, eff, extra=[n for n, _ in extra])
                 if "::" in item["name"]:
                     tr.fns[(item["type"], item["name"].split("::")[-1])] = tr.fns[key]     # trait method, callable by its short name
+            elif item["kind"] in ("guard", "state_part", "pin"):
+                a = find_marker(body[1], item.get("from"), what)
+                b = find_marker(body[1], item.get("to"), what)
+                part = body[1][a:b]
+                at_end = b == len(body[1])
+                if item["kind"] == "pin":
+                    # statements that are NOT translated: pinned by the hash of their syntax tree (comments / layout free)
+                    h = ast_sha(part + ([body[2]] if at_end else []))
+                    if h != item["sha"]:
+                        raise ParseError(f"{what}: the untranslated part `{item['what']}` of the body changed (syntax hash {h}, pinned {item['sha']})")
+                    summary.append({"item": f"{item['type']}::{item['name']} [{item['what']}]", "coq": cn, "target": tname, "kind": "pin",
+                                    "source": "pinned by syntax hash " + item["sha"]})
+                    return
+                ok_unit = ("call", ["Ok"], [("tuple", [])])
+                if item.get("returns"):
+                    ok_unit = ("call", ["Ok"], [parse_expr_src(item["returns"]["expr"], what)])
+                    ret = ("result", parse_type_src(item["returns"]["type"]), ret[2])
+                pbody = ("block", part, body[2] if at_end else ok_unit)
+                locs = [(n, parse_type_src(t)) for n, t in item.get("locals", [])]
+                ex2 = [("cfg", parse_type_src("Config"))] + extra
+                if item["kind"] == "guard":
+                    ps = [("self", ("named", item["type"]))] + params + locs
+                    tr.define_fn(what, item["type"], cn, ps, ret, pbody, binds=binds, err_coq="rerr", extra=ex2)
+                else:
+                    ps = [("self", ("named", item["type"]))] + locs
+                    tr.define_fn(what, item["type"], cn, ps, ret, pbody, binds=binds, err_coq="rerr", extra=ex2, state_fn=True)
+            elif item["kind"] == "state_fn":
+                if self_mode != "refmut":
+                    raise ParseError(f"{what}: expected a `&mut self` method")
+                ps = [("self", ("named", item["type"]))] + params
+                ex2 = [("cfg", parse_type_src("Config"))] + extra
+                tr.define_fn(what, item["type"], cn, ps, ret, body, binds=binds, err_coq="rerr", extra=ex2, state_fn=True)
+                tr.fns[key] = Sig(cn, [t for _, t in params], True, ret, "h", extra=[n for n, _ in ex2])
             elif item["kind"] == "state_update":
                 if self_mode != "refmut" or f["ret"]:
                     raise ParseError(f"{what}: expected `&mut self` and no return value")
@@ -611,20 +954,23 @@ def translate(target, _done=None):
                         raise ParseError(f"{what}: pinned statement disappeared from the body")
             else:
                 raise ParseError(f"unknown item kind {item['kind']}")
+            src_text = _tok_text(f["body"])
+            if item["kind"] in ("guard", "state_part"):
+                src_text = f"statements {item.get('from') or 'top'} .. {item.get('to')} of the body"
             summary.append({"item": (item['type'] + "::" if item['type'] else "") + item['name'], "coq": cn, "target": tname,
-                            "kind": item["kind"], "source": _tok_text(f["body"])})
+                            "kind": item["kind"], "source": src_text})
         return run
 
     for tname, item in all_items:
         kind = "const" if item["kind"] == "const" else "fn"
-        if item["kind"] in ("fn", "const"):
+        if item["kind"] in ("fn", "const", "state_fn"):
             tr.pending[(kind, item["type"], item["name"])] = make_thunk(tname, item)
     mine = []
     for tname, item in all_items:
         before = len(tr.out)
         kind = "const" if item["kind"] == "const" else "fn"
         key = (kind, item["type"], item["name"])
-        if item["kind"] in ("fn", "const"):
+        if item["kind"] in ("fn", "const", "state_fn"):
             if key in tr.pending:
                 tr.run_pending(key)
         else:
@@ -639,6 +985,10 @@ def translate(target, _done=None):
              "From EC Require Import " + spec["requires"] + ".",
              "Import ListNotations.",
              "Open Scope Z_scope.", ""]
+    for s0 in summary:
+        if s0["kind"] == "pin" and s0["coq"] in own:
+            lines.append(f"(* {s0['item']}: NOT translated, {s0['source']} *)")
+            lines.append("")
     for cn, text in tr.out:
         if cn not in own:
             continue
@@ -647,6 +997,12 @@ def translate(target, _done=None):
         lines.append(text)
         lines.append("")
     return "\n".join(lines), [s for s in summary if s["coq"] in own], tr
+
+
+# the replica state machine (stages A and B): targets in dependency order and their theorem files
+REPLICA_STEP = ["numbers", "justification", "qc_verify"] + REPLICA + ["proposer"]
+REPLICA_PROPS = ["theories/Properties/C02Gen.v", "theories/Properties/C04Gen.v", "theories/Properties/C05Gen.v",
+                 "theories/Properties/C05Gen2.v", "theories/Properties/C05Gen3.v", "theories/Properties/C05Gen4.v"]
 
 
 def regenerate(target):
@@ -714,7 +1070,7 @@ def coq_errors(out):
 def trusted_base(targets):
     ts = []
     for t in targets:
-        for d in TARGETS[t]["deps"] + [t]:
+        for d in order_of(t):
             if d not in ts:
                 ts.append(d)
     out = ["translator gen/rust2coq.py + gen/r2c_{parse,trans,ir}.py (pure Rust subset -> Gallina; fails on anything else) and "
@@ -727,12 +1083,23 @@ def trusted_base(targets):
                 out.append(f"{i['type']}::{i['name']}: `{b['rust']}` is read as `{b['coq']}`")
             for a in i.get("allowed", []):
                 out.append(f"{i['type']}::{i['name']}: state update `{a}` is pinned textually, not translated")
+            if i["kind"] == "pin":
+                out.append(f"{i['type']}::{i['name']}: the part `{i['what']}` is NOT translated; it is pinned by the hash of its syntax tree "
+                           f"({i['sha']}) and tied to the model by the correspondence check only")
+            if i["kind"] in ("guard", "state_part"):
+                out.append(f"{i['type']}::{i['name']}: statements from {i.get('from') or 'the top'} to {i.get('to')} are translated as "
+                           f"`{coq_name(i)}`" + (f" over the locals {[n for n, _ in i.get('locals', [])]}" if i.get("locals") else ""))
             if i.get("pinned_tail"):
                 out.append(f"{i['type']}::{i['name']}: only the accept/reject decision is translated; the state updates "
                            f"`{i['pinned_tail']}` are pinned textually as the last statements of the body")
             if i.get("pin_body"):
                 out.append(f"{i['type']}::{i['name']}: loop body `{i['pin_body']}` is pinned textually, not translated")
-    for (ty, m), x in EXTERNS.items():
+    if any(t in REPLICA for t in ts):
+        out.append("replica state machine: tracing / metrics statements and assignments to the timer fields view_timeout, view_start are not "
+                   "translated (the model has no time); `.await` is transparent; the engine, the outbound channel and the proposer watch "
+                   "channel are the effect constructors of coq/theories/Model/ReplicaGlue.v; an incoming Signed<M> is (key, signature verdict, M)")
+    allx = list(EXTERNS.items()) + [(k2, dict(x2, targets=[t2])) for t2 in ts for k2, x2 in TARGETS[t2].get("externs", {}).items()]
+    for (ty, m), x in allx:
         if any(t in ts for t in x["targets"]):
             out.append(f"callee table: {ty}::{m} -> `{x['template']}` ({x['why']})")
     touched = set()
